@@ -24,6 +24,33 @@ def select_patterns(body, kq):
     for t in out: uniq[t.get_id()] = t
     return list(uniq.values())[:4]
 
+def normalize_index(formula, kq):
+    """If every array read that mentions the bound variable k has the index k + c for one and the same k-free term c, re-express the
+    quantifier over the absolute index j = k + c: facts about a sub-slice x[a:] and goals about x then share the trigger
+    select(arr, j) (matching modulo the offset arithmetic is what E-matching cannot do)."""
+    sels = select_patterns(formula, kq)
+    if not sels:
+        return None
+    offs = []
+    for s in sels:
+        idx = s.arg(1)
+        c = z3.simplify(idx - kq)
+        if contains(c, kq):
+            return None
+        offs.append(c)
+    c0 = offs[0]
+    if any(not z3.eq(c0, c) for c in offs[1:]):
+        return None
+    if z3.is_int_value(c0) and c0.as_long() == 0:
+        return None
+    jq = fresh('q!j')
+    f2 = z3.substitute(formula, (kq, jq - c0))
+    return jq, z3.simplify(f2, som=False)
+
+def contains(t, v):
+    if t.get_id() == v.get_id(): return True
+    return any(contains(c, v) for c in t.children())
+
 class SpecEnv:
     """Name resolution for one contract evaluation: explicit bindings first, then the state's locals."""
     def __init__(self, st, binds=None, old=None, results=None, exec_=None, parent=None):
@@ -241,8 +268,14 @@ class SpecMixin:
                 body = self.sev(env2, args[3])
                 rng = z3.And(lo <= kq, kq < hi)
                 if name == 'forall':
+                    full = z3.Implies(rng, body)
+                    norm = normalize_index(full, kq)
+                    if norm is not None:
+                        jq, full2 = norm
+                        pats = select_patterns(full2, jq)
+                        return z3.ForAll([jq], full2, patterns=pats) if pats else z3.ForAll([jq], full2)
                     pats = select_patterns(body, kq)
-                    return z3.ForAll([kq], z3.Implies(rng, body), patterns=pats) if pats else z3.ForAll([kq], z3.Implies(rng, body))
+                    return z3.ForAll([kq], full, patterns=pats) if pats else z3.ForAll([kq], full)
                 return z3.Exists([kq], z3.And(rng, body))
             body = self.sev(env2, args[1])
             return z3.ForAll([kq], body) if name == 'forall' else z3.Exists([kq], body)
